@@ -24,6 +24,14 @@
 #include "kit.h"
 #include <mpi.h>
 
+
+/* start-up ticker: MPI_Init + parsec_init (hwloc discovery, thread creation) can take minutes on a loaded box and are not
+ * the code under test; keep the driver's stall detector quiet until the monitored phase begins (bounded: 15 minutes) */
+static volatile int vf_init_phase = 0; static pthread_t vf_init_thread;
+static void *vf_init_tick(void *a) { (void)a; for (int k = 0; vf_init_phase && k < 9000; k++) { usleep(100000); VF_TICK(); } return NULL; }
+static void vf_init_begin(void) { vf_heartbeat_start(); vf_init_phase = 1; pthread_create(&vf_init_thread, NULL, vf_init_tick, NULL); }
+static void vf_init_end(void) { vf_init_phase = 0; pthread_join(vf_init_thread, NULL); }
+
 #define MAXT      16
 #define MAXFLOWS  12
 #define MAXB      64          /* instances per batch */
@@ -296,6 +304,7 @@ static void worker(int tid, int nt, void *arg)
 
 int main(int argc, char **argv)
 {
+    vf_init_begin();
     int prov; MPI_Init_thread(&argc, &argv, MPI_THREAD_SERIALIZED, &prov);
     cpu_set_t cpus; int have_cpus = (0 == sched_getaffinity(0, sizeof cpus, &cpus));
     int pargc = 1; char *pargv_s[2] = {argv[0], NULL}; char **pargv = pargv_s;
@@ -304,6 +313,7 @@ int main(int argc, char **argv)
     /* parsec_init binds the calling thread to one core and new threads inherit that mask: undo it, otherwise all
      * harness threads share one core and nothing ever overlaps */
     if (have_cpus) sched_setaffinity(0, sizeof cpus, &cpus);
+    vf_init_end();
     seed = (uint64_t)vf_arg_ll(argc, argv, "--seed", 1);
     T = (int)vf_arg_ll(argc, argv, "--threads", 4); if (T < 1) T = 1; if (T > MAXT) T = MAXT;
     nbatches = vf_arg_ll(argc, argv, "--batches", 1000);
@@ -351,7 +361,6 @@ int main(int argc, char **argv)
     sigset = calloc(sigcap, sizeof(uint64_t));
     vf_rng_seed(&lrng, seed, 4242);
     vf_spinbar_init(&bar, T);
-    vf_heartbeat_start();
     vf_team_run(T, worker, NULL);
     vf_heartbeat_stop();
     char fk[64]; int p = 0; for (int i = 0; i < nflows; i++) p += snprintf(fk + p, sizeof fk - p, "%c", "tmckgw"[fkind[i]]);
